@@ -278,3 +278,58 @@ fn count_forms_f64() {
         assert!(<f64 as RangeNumber>::from_i64(i).unwrap() as i64 == i);
     }
 }
+
+// ---- check_de_inner: fallback position / multiplicity / "floats need a fallback" (BOUNDED: <= 3 branches) ----
+fn any_shape_i32(k: u8) -> Range<i32> {
+    // the shapes that matter to check_de_inner: a plain branch, a fallback, a list holding a fallback, a list without
+    match k {
+        0 => Range::Exact(kani::any()),
+        1 => Range::Fallback,
+        2 => Range::Multiple(vec![Range::Exact(kani::any()), Range::Fallback]),
+        _ => Range::Multiple(vec![Range::Exact(kani::any()), Range::Exact(kani::any())]),
+    }
+}
+fn is_fallback_like(k: u8) -> bool { k == 1 || k == 2 }
+
+macro_rules! check_de_harness {
+    ($name:ident, $n:expr) => {
+        #[kani::proof]
+        #[kani::unwind(6)]
+        fn $name() {
+            let ks: [u8; $n] = kani::any();
+            let mut v: Vec<(Range<i32>, ParsedValue)> = Vec::new();
+            let mut i = 0;
+            while i < $n {
+                kani::assume(ks[i] < 4);
+                v.push((any_shape_i32(ks[i]), ParsedValue::Default));
+                i += 1;
+            }
+            let (invalid_fallback, fallback_count, should_have_fallback) = Ranges::check_de_inner::<i32>(&v);
+            core::mem::forget(v);
+            // a fallback (bare or inside a `|` list) anywhere but in the last branch is invalid
+            let mut want_invalid = false;
+            let mut want_count = 0usize;
+            let mut i = 0;
+            while i < $n {
+                if i + 1 < $n && is_fallback_like(ks[i]) { want_invalid = true; }
+                if ks[i] == 1 { want_count += 1; }
+                i += 1;
+            }
+            assert!(invalid_fallback == want_invalid);
+            assert!(fallback_count == want_count);
+            assert!(!should_have_fallback);
+        }
+    };
+}
+check_de_harness!(check_de_1, 1);
+check_de_harness!(check_de_2, 2);
+check_de_harness!(check_de_3, 3);
+check_de_harness!(check_de_4, 4);
+
+#[kani::proof]
+fn should_have_fallback_is_float_only() {
+    assert!(RangeType::F32.should_have_fallback() && RangeType::F64.should_have_fallback());
+    assert!(!RangeType::I8.should_have_fallback() && !RangeType::I16.should_have_fallback() && !RangeType::I32.should_have_fallback()
+        && !RangeType::I64.should_have_fallback() && !RangeType::U8.should_have_fallback() && !RangeType::U16.should_have_fallback()
+        && !RangeType::U32.should_have_fallback() && !RangeType::U64.should_have_fallback());
+}
